@@ -221,7 +221,43 @@ W_SLICES = '''            starts = [tid * workload for tid in range(num_cores)]
 W_INSTRS = "            instrs = [kernel[s:e] for s, e in zip(starts, ends)]\n"
 W_WORKLOAD = "            workload = int((klen - 1) / num_cores) + 1\n"
 
+W_POLL = '''                    while time.time() - start_time <= timeout:
+                        if any(p.is_alive() for p in processes):
+                            time.sleep(0.2)
+                        else:
+                            # all procs done
+                            for p in processes:
+                                p.join()
+                            break
+                    else:
+                        # terminate running processes
+                        for p in processes:
+                            if p.is_alive():
+                                # the search is cut short only if a worker is still running
+                                self.timed_out = True
+                                # Python 3.6 does not support Process.kill().
+                                # Can be changed to `p.kill()` after EoL (01/22) of Py3.6
+                                os.kill(p.pid, signal.SIGKILL)
+                            p.join()
+'''
+W_POLL_TRUE = '''                    while True:
+                        if time.time() - start_time > timeout:
+                            # terminate running processes
+                            for p in processes:
+                                if p.is_alive():
+                                    self.timed_out = True
+                                    os.kill(p.pid, signal.SIGKILL)
+                                p.join()
+                            break
+                        if not any(p.is_alive() for p in processes):
+                            for p in processes:
+                                p.join()
+                            break
+                        time.sleep(1 / 5)
+'''
+
 WORKERS_HARMLESS = [
+    ("poll loop as `while True` with the time-out as a guard", [(DG, W_POLL, W_POLL_TRUE)]),
     ("given out-C/h8.diff (one comprehension over tid, //, min order, guard form of the poll loop)", [("patch", "/tmp/harm/out-C/h8.diff")]),
     ("slices built by a loop with hoisted bounds", [(DG, W_SLICES, '''            instrs = []
             for tid in range(num_cores):
@@ -254,6 +290,10 @@ WORKERS_HARMLESS = [
     ("workload with // and a hoisted numerator", [(DG, W_WORKLOAD, "            last_index = klen - 1\n            workload = last_index // num_cores + 1\n")]),
 ]
 WORKERS_REAL = [
+    ("`while True` poll loop that times out at >=", [(DG, W_POLL, W_POLL_TRUE.replace("> timeout", ">= timeout"))]),
+    ("`while True` poll loop that flags the time-out unconditionally", [(DG, W_POLL, W_POLL_TRUE.replace(
+        "                                if p.is_alive():\n                                    self.timed_out = True\n",
+        "                                self.timed_out = True\n                                if p.is_alive():\n"))]),
     ("start shifted by one", [(DG, "starts = [tid * workload for", "starts = [tid * workload + 1 for")]),
     ("end uses tid + 2", [(DG, "min((tid + 1) * workload, klen)", "min((tid + 2) * workload, klen)")]),
     ("slice bounds swapped", [(DG, "kernel[s:e] for s, e in zip(starts, ends)", "kernel[e:s] for s, e in zip(starts, ends)")]),
@@ -630,7 +670,41 @@ REPORT_HARMLESS = [
     ("arch flag passed as an expression", [(MAIN, "            arch_warning=print_arch_warning,\n            length_warning=print_length_warning,\n            lcd_warning=kernel_graph.timed_out,\n            verbose=verbose,",
                                             "            arch_warning=not args.arch,\n            length_warning=print_length_warning,\n            lcd_warning=kernel_graph.timed_out,\n            verbose=verbose,")]),
 ]
+R_HELPER_CALL = "        warnings = self._warning_names(kernel, arch_warning, length_warning, lcd_warning)\n"
+R_HELPER = '''    def _warning_names(self, forms, arch, length, lcd):
+        names = []
+        if arch:
+            names.append("ArchWarning")
+        if length:
+            names.append("LengthWarning")
+        if lcd:
+            names.append("LCDWarning")
+        if INSTR_FLAGS.TP_UNKWN in [flag for form in forms for flag in form.flags]:
+            names.append("UnknownInstrWarning")
+        return names
+
+'''
+R_DICT_ANCHOR = "    def combined_view(\n"
+R_LEN_HELPER = '''def _needs_length_warning(selected, everything):
+    """an unmarked kernel above the threshold"""
+    if len(selected) != len(everything):
+        return False
+    return len(selected) > 100
+
+
+def inspect(args, output_file=sys.stdout):
+'''
+REPORT_HARMLESS += [
+    ("warning names collected by a private method", [(FE, R_WARN, R_HELPER_CALL), (FE, R_DICT_ANCHOR, R_HELPER + R_DICT_ANCHOR)]),
+    ("length test in a private module function", [(MAIN, R_LEN, "        print_length_warning = _needs_length_warning(kernel, parsed_code)\n"),
+                                                  (MAIN, "def inspect(args, output_file=sys.stdout):\n", R_LEN_HELPER)]),
+]
+
 REPORT_REAL = [
+    ("private method drops the length warning", [(FE, R_WARN, R_HELPER_CALL),
+        (FE, R_DICT_ANCHOR, R_HELPER.replace('        if length:\n            names.append("LengthWarning")\n', "") + R_DICT_ANCHOR)]),
+    ("private module function with threshold 90", [(MAIN, R_LEN, "        print_length_warning = _needs_length_warning(kernel, parsed_code)\n"),
+        (MAIN, "def inspect(args, output_file=sys.stdout):\n", R_LEN_HELPER.replace("> 100", "> 90"))]),
     ("threshold 120", [(MAIN, "len(kernel) > 100 else", "len(kernel) > 120 else")]),
     ("threshold comparison >=", [(MAIN, "len(kernel) > 100 else", "len(kernel) >= 100 else")]),
     ("named threshold with another value", [("patch", "/tmp/harm/out-D/h5.diff"), (MAIN, "LENGTH_WARNING_THRESHOLD = 100", "LENGTH_WARNING_THRESHOLD = 99")]),
@@ -776,9 +850,8 @@ def seeded(box):
                 if so != "unnoticed" and sn == "unnoticed":
                     flag = "  <-- LOST"
                     bad += 1
-                if so != sn or VERBOSE:
-                    cells.append("%s: %s -> %s%s" % (g, so, sn, flag))
-            rows.append("%-45s %s" % (os.path.basename(pdir), "; ".join(cells) if cells else "same as before for every plug-in"))
+                cells.append("%s: %s%s" % (g, so if so == sn else "%s -> %s" % (so, sn), flag))
+            rows.append("%-45s %s" % (os.path.basename(pdir), "; ".join(cells)))
         return bad, rows
     finally:
         shutil.rmtree(old_tools, ignore_errors=True)
